@@ -142,6 +142,18 @@ def check(ctx, rep):
         _c09.check_resume_atomic(rep, 'R05.h', _res)
         _c09.check_resume(rep, 'R05.h', 'R05.h', core, _res)
     _c09.check_entry_writers(rep, 'R05.h', core)
+    # ... and a stream's id stays its own for as long as the shell may send values under it: resolving a stream entry never changes its
+    # state, not even when its consumer has finished (a finished stream turned into Never is freed by resume(), its id goes to the next
+    # effect, and a late value resolves that unrelated request — over the bridge only) (shared with C09 R09.e)
+    from rules.props import c02 as _c02
+    _fs = _c02.find_method(core, 'crux_core::bridge::request_serde::ResolveSerialized', 'resolve')
+    _tab = _c02.arity_table(core, _fs[0], 'crux_core::bridge::request_serde::ResolveSerialized') if len(_fs) == 1 else None
+    if not _tab or 'Many' not in _tab:
+        rep.missing('R05.h', 'arity table of ResolveSerialized::resolve')
+    else:
+        rep.expect('R05.h', not _tab['Many']['writes_self'], 'Many-keeps-state', 'the Many arm of ResolveSerialized::resolve never writes *self',
+                   'ResolveSerialized::resolve changes the state of a stream entry: resume() then frees the id of a stream the shell may still send '
+                   'values for, the slab hands it to the next request, and a late value resumes the wrong request — only over the bridge')
     # R05.f: every host hands on every output it pulls from a hosted command: no CommandOutput / effect / event value is dropped on a normal
     # path of a hosting function (the linear rule of C01 restricted to the hosts), whatever the state of the hosted command
     rep.rule('R05.f', 'no host drops an output it has pulled from a hosted command', floor=1)
